@@ -113,7 +113,14 @@ class Profile:
         if not cfg["faults"]:
             for k in self.fault_kinds:
                 cfg["weights"].pop(k, None)
+        long_run = cfg["steps"] >= 600
         self.tune(cfg, rng)
+        if long_run:
+            # very long histories stay on small worlds (a step costs a snapshot of the whole world)
+            cfg["steps"] = max(cfg["steps"], 600)
+            cfg["universe"] = min(cfg.get("universe", 40), 40)
+            cfg["eml_universe"] = min(cfg.get("eml_universe", 80), 80)
+            cfg.pop("big_world", None)
         return cfg
 
     keep = ("new",)
